@@ -26,7 +26,7 @@ RULE = (
     "a proper non-empty subset is offered, or nothing is offered under a non-forbidden parent; distinct by case"
 )
 ASSUMPTIONS = [
-    "entry expressions are valid (C16 covers invalid ones); qualifiers are unique within a pool (maus validates that shape)",
+    "entry expressions are valid (C16 covers invalid ones); a qualifier may occur twice in a pool: it is offered if one of its entries is fulfilled, and only the set of offered qualifiers is compared then",
     "REQUIRED vs OPTIONAL in the reported status of a non-forbidden pool is unconstrained",
 ]
 BOUNDS = {"quick": {}, "thorough": {}}
@@ -51,7 +51,12 @@ def judge(result, element, offered, parent_forbidden, what):
             fail("forbidden-parent", f"{what}: segment forbidden but values {possible} are offered")
         return
     expected_possible = [(q, "meaning of " + q) for q in offered]
-    if possible != expected_possible:
+    qualifiers = [e["q"] for e in element["pool"]]
+    if len(set(qualifiers)) != len(qualifiers):
+        # a qualifier occurs more than once: which of its positions counts as "its" place is not specified
+        if sorted(possible) != sorted(expected_possible):
+            fail("offered", f"{what}: offered values {possible}, expected exactly the qualifiers {sorted(offered)}")
+    elif possible != expected_possible:
         fail("offered", f"{what}: offered values {possible}, expected exactly {expected_possible} (pool order)")
     if not offered:
         if status != "IS_FORBIDDEN":
@@ -161,7 +166,9 @@ def classify(case, info):
         labels.append("input=in-pool-not-offered")
     else:
         labels.append("input=foreign")
-    proper = 0 < len(offered) < len(element["pool"])
+    if len({e["q"] for e in element["pool"]}) != len(element["pool"]):
+        labels.append("duplicate-qualifier")
+    proper = 0 < len(offered) < len({e["q"] for e in element["pool"]})
     nothing = not offered and case["parent"] != "IS_FORBIDDEN"
     if proper:
         labels.append("proper-subset-offered")
@@ -204,6 +211,9 @@ def strategy(tier):  # pylint:disable=unused-argument
             return draw(build_long_lived())
         table, table_asts = draw(vtree.package_table())
         qualifiers = draw(st.lists(st.sampled_from(vtree.QUALIFIERS), min_size=1, max_size=5, unique=True))
+        if len(qualifiers) >= 2 and draw(st.sampled_from(range(5))) == 0:
+            # the same qualifier twice, with different expressions (maus allows it, e.g. after replace_value_pool)
+            qualifiers.insert(draw(st.integers(0, len(qualifiers))), draw(st.sampled_from(qualifiers)))
         pool = [{"q": q, "expr": draw(vtree.node_expression(table_asts))} for q in qualifiers]
         cer = draw(vtree.g_cer(weights=draw(st.sampled_from(["FUK", "FFU", "UUF", "U", "FUUK"]))))
         kind = draw(st.sampled_from(["none", "empty", "pool", "pool", "pool", "foreign"]))
@@ -229,6 +239,7 @@ STAGES = [
     Stage(name="pools", kind="hyp", check=check, classify=classify, strategy=strategy,
           budget={"quick": 200, "thorough": 3000},
           floors={"proper-subset-offered": 0.1, "nothing-offered": 0.015, "input=offered": 0.1,
-                  "input=in-pool-not-offered": 0.05, "input=foreign": 0.05, "offer-changes-between-validations": 0.03},
+                  "input=in-pool-not-offered": 0.05, "input=foreign": 0.05, "offer-changes-between-validations": 0.03,
+                  "duplicate-qualifier": 0.05},
           sample=sample),
 ]  # fmt: skip
